@@ -648,6 +648,18 @@ CHECKS["C04"].update(
     technique="Coq proof over translated tables and translated packing code plus hand model; vm_compute correspondence; ONNX "
               "reference encoder and decoder as third voice")
 
+CHECKS["C05"].update(
+    text="28 closed Coq theorems: every modelled pass (13, including InlinePass and RemoveUnusedFunctions as certificate-"
+         "checked models) and any sequence of them preserve `computes`, inputs, outputs and validity (C05_sequence; "
+         "C05_sequence_checked with executable hypotheses that are evaluated in Coq on every generated step). "
+         "RemoveUnusedOpsets is modelled with the opset tables in the term (C05_remove_unused_opsets_keeps_versions). "
+         "NameFix/ClearMetadata/ShapeInference leave the term unchanged (checked per run, C05_frame_passes_preserve). "
+         "Excluded: RemoveUnusedNodes on BatchNormalization with a training_mode attribute (known finding, refuted in Coq).",
+    technique="Gallina model of the pass pipeline over an uninterpreted operator semantics, plus untrusted producers with "
+              "executable certificates proved sound (inline step, live region, side conditions); per-run structural "
+              "correspondence (terms, opset tables, side conditions) by vm_compute; checker and execution oracle "
+              "(ReferenceEvaluator/onnxruntime) with replays, reused pass objects, multi-opset histories, targeted templates")
+
 
 def main():
     props = [json.loads(l) for l in open(os.path.join(VERIF, "properties.jsonl"))]
